@@ -1206,6 +1206,10 @@ func runC20(ctx *Ctx) error {
 			_ = os.MkdirAll(filepath.Dir(filepath.Join(d, nm)), 0o755)
 			_ = os.WriteFile(filepath.Join(d, nm), []byte(c), 0o644)
 		}
+		if j.c.Output {
+			// the output file is there already, from an earlier and much longer result: the new one replaces it
+			_ = os.WriteFile(filepath.Join(d, "out.go"), []byte("package stale\n"+strings.Repeat("// the result of an earlier run of the tool\n", 60000)), 0o644)
+		}
 		run := c20Exec(bin, d, append(append([]string{}, args...), "spec.json")...)
 		cliOut, cliErr := "", ""
 		if run.Exit != 0 {
